@@ -200,7 +200,9 @@ def run(ctx):
     rminus, wminus = prefix_rec(pp_own, '_minus')
     if rminus is None:
         rminus, wminus = prefix_rec(pp_base, '_minus')
-    rnot, wnot = prefix_rec(pp_own, '_not')
+    rnot, wnot = prefix_rec(pp_own, '_f_not')      # same interned token string "not" as pymbolic's _not
+    if rnot is None:
+        rnot, wnot = prefix_rec(pp_own, '_not')
     if rnot is None:
         rnot, wnot = prefix_rec(pp_base, '_not')
     if rminus in (None, NOFOLD) or rnot in (None, NOFOLD):
@@ -422,6 +424,8 @@ MUTANTS = [
            "            if type(right_exp) is pmbl.Quotient:\n                left_exp = pmbl.Quotient(numerator=pmbl.Product((left_exp, right_exp.numerator)),\n                        denominator=right_exp.denominator)\n            # pylint: disable=unidiomatic-typecheck\n            elif type(right_exp) is pmbl.Product:",
            "            if type(right_exp) is pmbl.Product:", expect=('R1', '* then /')),
     Mutant('lex-drop-ge', FILE, "            (_f_greaterequal, pytools.lex.RE(r\"\\.ge\\.\", re.IGNORECASE)),\n", "", expect=('R3', 'lex:.ge.')),
-    Mutant('repair-unary-minus', FILE, "left_exp = pmbl.Product((-1, self.parse_expression(pstate, _PREC_UNARY)))",
-           "left_exp = pmbl.Product((-1, self.parse_expression(pstate, _PREC_TIMES)))", expect=None),
+    Mutant('unary-minus-binds-tightest', FILE, "left_exp = pmbl.Product((-1, self.parse_expression(pstate, _PREC_TIMES)))",
+           "left_exp = pmbl.Product((-1, self.parse_expression(pstate, _PREC_CALL)))", expect=('R2', 'prefix-minus:**')),
+    Mutant('not-override-removed', FILE, "        if pstate.is_next(self._f_not):\n            pstate.advance()\n            # In Fortran, .not. binds weaker than the relational operators: .not. a == b is .not. (a == b)\n            return pmbl.LogicalNot(self.parse_expression(pstate, _PREC_LOGICAL_AND))\n",
+           "", expect=('R2', 'prefix-not:cmp')),
 ]
